@@ -147,22 +147,23 @@ def sig(meta, v, tr):
 def run(ctx: Ctx):
     ctx.model_check("IncomingMC", "MC_Incoming", invariants=("ExactlyOneOrNone", "DstKind", "JoinTriage"), coverage=False, workers=4)
     n = 120 if ctx.quick else 12000
-    res = pmap(_rv, [(v, n, ctx.seed) for v in range(4, 15)], procs=11, chunksize=1)
+    VERS = tuple(range(4, 15)) + (15, 16)        # NCPs newer than the newest known version run on the newest tables (and field order)
+    res = pmap(_rv, [(v, n, ctx.seed) for v in VERS], procs=13, chunksize=1)
     traces, metas = [], []
-    for ver, evs in zip(range(4, 15), res):
+    for ver, evs in zip(VERS, res):
         for i in range(0, len(evs), 30):
             traces.append(evs[i:i + 30])
             metas.append({"ver": ver, "chunk": i // 30})
     # the same callbacks with the application brought up by its own connect() / start_network(): on the first connection and on later ones
     # (disconnect() in between) of the same application object
-    lc = [(v, 24 if ctx.quick else 400, ctx.seed + 1, conn) for v in range(4, 15) for conn in (1, 2, 3) if not ctx.quick or (v + conn) % 2 or conn == 2]
+    lc = [(v, 24 if ctx.quick else 400, ctx.seed + 1, conn) for v in VERS for conn in (1, 2, 3) if not ctx.quick or (v + conn) % 2 or conn == 2]
     for a, evs in zip(lc, pmap(_rv, lc, procs=11, chunksize=1)):
         for i in range(0, len(evs), 30):
             traces.append(evs[i:i + 30])
             metas.append({"ver": a[0], "chunk": i // 30, "conn": a[3], "n": a[1], "seed": a[2]})
     ctx.evaluations = sum(len(t) for t in traces)
     ctx.distinct_nontrivial = len({str(e["cb"]) + str(e["ver"]) for t in traces for e in t})
-    ctx.rule = (f"per protocol version 4..14: {n} incomingMessageHandler callbacks (all small message types plus random ones incl. undefined values; "
+    ctx.rule = (f"per protocol version 4..14 and NCP versions 15, 16 (newest known tables): {n} incomingMessageHandler callbacks (all small message types plus random ones incl. undefined values; "
                 "payload lengths 0..100; RSSI extremes -128/-1/0/127; random other fields; repeats of earlier callbacks - identical, or sharing sender and APS sequence - interleaved with other traffic) and trust-centre join callbacks over all status x decision "
                 "combinations, encoded byte-level by the harness's own encoder in the version's field order; distinct = distinct (version, callback)")
     ctx.add_sample(traces[0][0])
